@@ -1,0 +1,39 @@
+//go:build verif
+
+package utils
+
+import "sync/atomic"
+
+// VerifInitWindow initialises the watermark like Init but with a window of
+// the given size, so that window rebuilds happen with small indices.
+func (w *WaterMark) VerifInitWindow(size int) {
+	w.waiters = make(map[uint64]chan struct{})
+	w.window.Store(&watermarkWindow{base: 1, slots: make([]atomic.Int32, size)})
+}
+
+// VerifMuLocked reports whether w.mu is held (TryLock probe; only meaningful
+// while no thread is running).
+func (w *WaterMark) VerifMuLocked() bool {
+	if w.mu.TryLock() {
+		w.mu.Unlock()
+		return false
+	}
+	return true
+}
+
+// VerifWindow returns the base and the slot counts of the current window.
+func (w *WaterMark) VerifWindow() (uint64, []int32) {
+	win := w.loadWindow()
+	out := make([]int32, len(win.slots))
+	for i := range win.slots {
+		out[i] = win.slots[i].Load()
+	}
+	return win.base, out
+}
+
+// VerifHasWaiter reports whether a wait channel is registered for index.
+// Reads the map without w.mu: only to be called while every thread is parked.
+func (w *WaterMark) VerifHasWaiter(index uint64) bool {
+	_, ok := w.waiters[index]
+	return ok
+}
